@@ -750,7 +750,7 @@ class Interp:
         return self.lib.value_attr(self, obj, name)
 
     def getitem(self, obj, key):
-        if isinstance(obj, A.Arr):
+        if isinstance(obj, (A.Arr, A.Masked)):
             return A.getitem(obj, key)
         if isinstance(obj, Ref):
             if obj.kind == "list":
@@ -823,7 +823,7 @@ class Interp:
 
     def setitem(self, obj, key, value):
         if isinstance(obj, A.Arr):
-            return A.setitem(obj, key, value)
+            return A.setitem(obj, key, self.arr_operand(value))
         if isinstance(obj, Ref):
             if obj.kind == "list":
                 c = list(obj.content)
@@ -1031,7 +1031,7 @@ class Interp:
     def ev_UnaryOp(self, node, frame):
         v = norm(self.eval(node.operand, frame))
         if isinstance(node.op, ast.USub):
-            if isinstance(v, A.Arr):
+            if isinstance(v, (A.Arr, A.Masked)):
                 return A.unop(sv.neg, v)
             if self.lib.is_lib_value(v):
                 return self.lib.value_binop(self, "*", v, -1)
@@ -1263,9 +1263,16 @@ class Interp:
 
     def symbolic_iter(self, v):
         """(length, item_at) if v iterates over a symbolic number of items, else None"""
-        from .lib import RangeVal
+        from .lib import RangeVal, _Enumerate
         if isinstance(v, RangeVal) and not v.concrete():
             return v.length(), v.item
+        if isinstance(v, _Enumerate):
+            sub = self.symbolic_iter(v.it)
+            if sub is None:
+                return None
+            n, item = sub
+            start = v.start
+            return n, (lambda i: (A.simp(sv.add(start, i)), item(i)))
         if isinstance(v, Ref) and v.kind == "list" and isinstance(v.content, A.SeqVal):
             c = v.content
             return c.length, c.fn
